@@ -228,13 +228,31 @@ type (
 		verifInner
 		Z int16 `key:"z"`
 	}
+	verifElem struct {
+		X int8           `key:"x"`
+		Y int16          `key:"y,optional"`
+		P *int8          `key:"p,optional"`
+		T []int8         `key:"t,optional"`
+		M map[string]int `key:"m,optional"`
+		D int            `key:"d,default=7"`
+	}
+	verifStructSlice struct {
+		L []verifElem `key:"l"`
+	}
+	verifPtrSlice struct {
+		L []*verifElem `key:"l"`
+	}
 )
 
 // H05g: composite shapes: nested struct, optional pointer-to-struct, slice,
 // map, embedded struct — every numeric leaf equals the document's value exactly
 // or unmarshalling fails.
 func Verif_C05_shapes() {
-	c := verifCase(5)
+	c := verifCase(7)
+	if c >= 5 {
+		verifStructLists(c == 6)
+		return
+	}
 	numStr, val := verifNum("a", verifParam("digits"))
 	n := json.Number(numStr)
 	switch c {
@@ -282,5 +300,109 @@ func Verif_C05_shapes() {
 			verifAssert(int64(t.X) == val && t.Z == 9 && t.Y == 0, "embedded struct leaves are filled from the outer document exactly")
 			verifReach("embedded-ok")
 		}
+	}
+}
+
+// H05g cases 5/6: a list of structs ([]T, and []*T): every element is decoded
+// from ITS OWN map only - a member absent from an element's map is zero (or its
+// default), whatever the elements before it held.  Which of the optional
+// members y, p, t, m, d each of the 3 elements carries is symbolic (y, p: every
+// pattern; t, m, d together: 4 patterns).
+func verifStructLists(ptr bool) {
+	const n = 3
+	var docs []any
+	var has [n][5]bool
+	// y and p: present or absent per element, every pattern; t, m, d together follow one of 4 patterns
+	rest := [][n]bool{{true, false, true}, {false, true, false}, {true, true, false}, {false, false, false}}[verifChoose("rest", 4)]
+	for i := 0; i < n; i++ {
+		m := map[string]any{"x": json.Number([]string{"1", "2", "3"}[i])}
+		for k, name := range []string{"y", "p", "t", "m", "d"} {
+			if k < 2 {
+				has[i][k] = verifBool("has-" + name)
+			} else {
+				has[i][k] = rest[i]
+			}
+			if !has[i][k] {
+				continue
+			}
+			switch name {
+			case "y":
+				m["y"] = json.Number([]string{"10", "20", "30"}[i])
+			case "p":
+				m["p"] = json.Number([]string{"11", "21", "31"}[i])
+			case "t":
+				m["t"] = []any{json.Number([]string{"12", "22", "32"}[i])}
+			case "m":
+				m["m"] = map[string]any{"k": json.Number([]string{"13", "23", "33"}[i])}
+			case "d":
+				m["d"] = json.Number([]string{"14", "24", "34"}[i])
+			}
+		}
+		docs = append(docs, m)
+	}
+	var got []verifElem
+	var ptrs []*verifElem
+	if ptr {
+		var t verifPtrSlice
+		err := UnmarshalKey(map[string]any{"l": docs}, &t)
+		verifAssert(err == nil && len(t.L) == n, "a list of well-formed element maps unmarshals into as many elements")
+		if err != nil || len(t.L) != n {
+			return
+		}
+		ptrs = t.L
+		for _, e := range t.L {
+			verifAssert(e != nil, "every []*struct element is allocated")
+			if e == nil {
+				return
+			}
+			got = append(got, *e)
+		}
+		verifAssert(ptrs[0] != ptrs[1] && ptrs[1] != ptrs[2] && ptrs[0] != ptrs[2], "[]*struct elements are distinct objects")
+		verifReach("ptrlist-ok")
+	} else {
+		var t verifStructSlice
+		err := UnmarshalKey(map[string]any{"l": docs}, &t)
+		verifAssert(err == nil && len(t.L) == n, "a list of well-formed element maps unmarshals into as many elements")
+		if err != nil || len(t.L) != n {
+			return
+		}
+		got = t.L
+		verifReach("structlist-ok")
+	}
+	later := false
+	for i, e := range got {
+		b := 10 * (i + 1)
+		verifAssert(int(e.X) == i+1, "list element: required member equals its own document value")
+		if has[i][0] {
+			verifAssert(int(e.Y) == b, "list element: optional member equals its own document value")
+		} else {
+			verifAssert(e.Y == 0, "list element: an optional member absent from this element stays zero (nothing leaks from an earlier element)")
+		}
+		if has[i][1] {
+			verifAssert(e.P != nil && int(*e.P) == b+1, "list element: optional pointer member equals its own document value")
+		} else {
+			verifAssert(e.P == nil, "list element: an optional pointer member absent from this element stays nil")
+		}
+		if has[i][2] {
+			verifAssert(len(e.T) == 1 && int(e.T[0]) == b+2, "list element: optional slice member equals its own document value")
+		} else {
+			verifAssert(len(e.T) == 0, "list element: an optional slice member absent from this element stays empty")
+		}
+		if has[i][3] {
+			verifAssert(len(e.M) == 1 && e.M["k"] == b+3, "list element: optional map member equals its own document value")
+		} else {
+			verifAssert(len(e.M) == 0, "list element: an optional map member absent from this element stays empty")
+		}
+		if has[i][4] {
+			verifAssert(e.D == b+4, "list element: defaulted member equals its own document value")
+		} else {
+			verifAssert(e.D == 7, "list element: a defaulted member absent from this element gets the default")
+		}
+		if i > 0 && (has[0][0] && !has[i][0] || has[0][1] && !has[i][1]) {
+			later = true
+		}
+	}
+	if later {
+		verifReach("absent-after-present")
 	}
 }
